@@ -466,7 +466,13 @@ func (f *Frame) execInstr(st *State, in ssa.Instruction) *State {
 	case *ssa.IndexAddr:
 		f.execIndexAddr(st, x)
 	case *ssa.Index:
-		// array value or string indexing via Index: only strings/typeparams
+		if b, ok := x.X.Type().Underlying().(*types.Basic); ok && b.Info()&types.IsString != 0 {
+			base := f.val(x.X).T
+			idx := f.val(x.Index).T
+			vc.oblige(st, "bounds", vc.anchorOf(x), And(Le(IntLit(0), idx), Lt(idx, SLen(base))), nil, "string index out of range", x.Pos())
+			f.regs[x] = Value{T: App(SInt, "sat", base, idx)}
+			break
+		}
 		vc.unsupported("Index on array value in %s", f.fn.Name())
 		f.regs[x] = Value{T: vc.freshConst("idx", env.SortOf(x.Type()))}
 	case *ssa.Lookup:
